@@ -194,6 +194,22 @@ func (i *interpreter) registerModels(harnessPkgPath string) {
 		}
 		return n
 	})
+	i.addModel(hp+"vAnd", "non-short-circuit conjunction (no path fork)", func(fr *frame, a []value) value {
+		return fr.t.r.andv(a[0], a[1])
+	})
+	i.addModel(hp+"vIte", "branch-free selection", func(fr *frame, a []value) value {
+		r := fr.t.r
+		switch c := a[0].(type) {
+		case bool:
+			if c {
+				return a[1]
+			}
+			return a[2]
+		case *Term:
+			return concretizeIfConst(types.Typ[types.Int64], r.tt.Ite(c, r.toTerm(types.Typ[types.Int64], a[1]), r.toTerm(types.Typ[types.Int64], a[2])))
+		}
+		panic("vIte: bad condition")
+	})
 	i.addModel(hp+"vSymbolic", "true under the engine, false natively", func(fr *frame, a []value) value { return true })
 
 	// ---------------- sync.Mutex ----------------
